@@ -695,7 +695,7 @@ outer:
 
 // arrange sorts positions 0..n-1 with the given less/swap (insertion sort = the stable
 // arrangement); when !stable every permutation inside runs of mutually equal elements is explored.
-func (p *path) arrange(n int, less func(i, j int) bool, swap func(i, j int), stable bool) {
+func (p *path) arrange(n int, less func(i, j int) bool, swap func(i, j int), stable bool, elem func(i int) value) {
 	for i := 1; i < n; i++ {
 		for j := i; j > 0 && less(j, j-1); j-- {
 			swap(j, j-1)
@@ -713,10 +713,29 @@ func (p *path) arrange(n int, less func(i, j int) bool, swap func(i, j int), sta
 		// run [start, i)
 		r := i - start
 		if r > 1 {
-			// choose a permutation of the run by successive choices (selection)
+			// choose a permutation of the run by successive choices (selection); candidates that are
+			// identical values (same terms) are interchangeable and offered only once
 			for k := 0; k < r-1; k++ {
-				c := p.choose(r - k)
-				p.envChoices++
+				cands := []int{}
+				for c := 0; c < r-k; c++ {
+					dup := false
+					if elem != nil {
+						for _, d := range cands {
+							if identicalValue(elem(start+k+d), elem(start+k+c)) {
+								dup = true
+								break
+							}
+						}
+					}
+					if !dup {
+						cands = append(cands, c)
+					}
+				}
+				c := 0
+				if len(cands) > 1 {
+					c = cands[p.choose(len(cands))]
+					p.envChoices++
+				}
 				if c != 0 {
 					// move element start+k+c to position start+k by adjacent swaps (keeps others' order)
 					for j := start + k + c; j > start+k; j-- {
@@ -727,6 +746,55 @@ func (p *path) arrange(n int, less func(i, j int) bool, swap func(i, j int), sta
 		}
 		start = i
 	}
+}
+
+// identicalValue: structurally identical interpreter values (same terms, same pointers).
+func identicalValue(a, b value) bool {
+	switch x := a.(type) {
+	case *Term:
+		y, ok := b.(*Term)
+		return ok && x == y
+	case Str:
+		y, ok := b.(Str)
+		if !ok || len(x.b) != len(y.b) {
+			return false
+		}
+		for i := range x.b {
+			if x.b[i] != y.b[i] {
+				return false
+			}
+		}
+		return true
+	case structure:
+		y, ok := b.(structure)
+		if !ok || len(x) != len(y) {
+			return false
+		}
+		for i := range x {
+			if !identicalValue(x[i], y[i]) {
+				return false
+			}
+		}
+		return true
+	case array:
+		y, ok := b.(array)
+		if !ok || len(x) != len(y) {
+			return false
+		}
+		for i := range x {
+			if !identicalValue(x[i], y[i]) {
+				return false
+			}
+		}
+		return true
+	case *value:
+		y, ok := b.(*value)
+		return ok && x == y
+	case iface:
+		y, ok := b.(iface)
+		return ok && x.t == y.t && identicalValue(x.v, y.v)
+	}
+	return false
 }
 
 func stubSortSlice(p *path, caller *frame, a []value, stable bool) value {
@@ -741,7 +809,7 @@ func stubSortSlice(p *path, caller *frame, a []value, stable bool) value {
 		return p.branch(r.(*Term))
 	}
 	swap := func(i, j int) { s[i], s[j] = s[j], s[i] }
-	p.arrange(len(s), less, swap, stable)
+	p.arrange(len(s), less, swap, stable, func(i int) value { return s[i] })
 	return nil
 }
 
@@ -767,7 +835,7 @@ func stubSortSort(p *path, caller *frame, a []value, stable bool) value {
 		return p.branch(p.call(caller, lessF, []value{data.v, idx(i), idx(j)}, nil).(*Term))
 	}
 	swap := func(i, j int) { p.call(caller, swapF, []value{data.v, idx(i), idx(j)}, nil) }
-	p.arrange(n, less, swap, stable)
+	p.arrange(n, less, swap, stable, nil)
 	return nil
 }
 
@@ -775,7 +843,7 @@ func stubSortStrings(p *path, _ *frame, a []value) value {
 	s, _ := a[0].([]value)
 	less := func(i, j int) bool { return p.branch(p.strLess(s[i].(Str), s[j].(Str), false)) }
 	swap := func(i, j int) { s[i], s[j] = s[j], s[i] }
-	p.arrange(len(s), less, swap, true)
+	p.arrange(len(s), less, swap, true, nil)
 	return nil
 }
 
